@@ -8,6 +8,7 @@ import (
 	"os"
 	"os/exec"
 	"path/filepath"
+	"runtime/debug"
 	"sort"
 	"strconv"
 	"strings"
@@ -140,6 +141,9 @@ func workerMain(t *testing.T) {
 		emit(wline{Type: "start", Idx: idx, Seed: seed})
 		t0 := time.Now()
 		v := ck.Eval(t, c, st, relax)
+		if ck.MaxWorkers > 0 {
+			debug.FreeOSMemory() // memory-hungry runs: give the pages back before the next one
+		}
 		st.Evals++
 		if v != nil && v.Oracle == "harness" {
 			fmt.Fprintln(os.Stderr, "harness failure:", v.Detail)
@@ -480,6 +484,9 @@ func superMain(t *testing.T) int {
 	runs = envInt("VERIF_RUNS", runs)
 	secs = envInt("VERIF_BUDGET_S", secs)
 	nw := envInt("VERIF_NW", 16)
+	if ck.MaxWorkers > 0 && nw > ck.MaxWorkers {
+		nw = ck.MaxWorkers
+	}
 	if nw > runs {
 		nw = max(runs, 1)
 	}
@@ -559,6 +566,10 @@ func superMain(t *testing.T) int {
 			cmd.Env = append(os.Environ(), "VERIF_MODE=worker", fmt.Sprintf("VERIF_WORKER=%d", i), fmt.Sprintf("VERIF_NW=%d", nw),
 				fmt.Sprintf("VERIF_RUNS=%d", runs), fmt.Sprintf("VERIF_BUDGET_S=%d", secs), "VERIF_OUT="+outp, "VERIF_RELAX="+relaxCSV,
 				fmt.Sprintf("VERIF_SEED=%d", master), "VERIF_TIER="+tier, "GOMAXPROCS=2")
+			if ck.MaxWorkers > 0 {
+				// soft heap limit: collect the previous key derivation's gigabyte before the next one allocates
+				cmd.Env = append(cmd.Env, "GOMEMLIMIT=1536MiB")
+			}
 			logf, _ := os.Create(filepath.Join(outDir, fmt.Sprintf("w%d.log", i)))
 			cmd.Stdout, cmd.Stderr = logf, logf
 			if err := cmd.Start(); err != nil {
